@@ -142,9 +142,11 @@ def register_tcp_client(R):
     # the iterator: the budget given to iter_received_packets() is shared by all the packets it yields
     R.module("easynetwork/clients/abc.py")
     R.shape("AbstractNetworkClient", cls="AbstractNetworkClient", fields={})
+    R.ghost(RXP="objseq")  # the packets the client's recv_packet() has returned, in order
     R.contract("AbstractNetworkClient.recv_packet", params={"timeout": "opt[xreal]"}, result="obj", trusted=True,
-               ensures=["ghost.now >= old(ghost.now) and ghost.waited - old(ghost.waited) == ghost.now - old(ghost.now)"],
-               raises={"BaseException": ["ghost.now >= old(ghost.now) and ghost.waited - old(ghost.waited) == ghost.now - old(ghost.now)"]}, modifies=["ghost.now", "ghost.waited"])
+               ensures=["ghost.now >= old(ghost.now) and ghost.waited - old(ghost.waited) == ghost.now - old(ghost.now)", "ghost.RXP == old(ghost.RXP) + unit(result)"],
+               raises={"BaseException": ["ghost.now >= old(ghost.now) and ghost.waited - old(ghost.waited) == ghost.now - old(ghost.now)", "ghost.RXP == old(ghost.RXP)"]},
+               modifies=["ghost.now", "ghost.waited", "ghost.RXP"])
     R.module("easynetwork/clients/_iter.py")
     R.shape("ClientRecvIterator", cls="ClientRecvIterator", fields={"__client": "AbstractNetworkClient", "__timeout": "opt[xreal]"})
     IT, IT0 = "self.__timeout", "old(self.__timeout)"
@@ -158,11 +160,43 @@ def register_tcp_client(R):
              f"and fin({IT}) >= fin({IT0}) - (ghost.now - old(ghost.now)))", "C11"),
             ("at-least-the-time-spent-inside-the-receive-is-charged",
              f"implies(not isnone({IT0}) and not isinf({IT0}), fin({IT}) == 0 or fin({IT}) <= fin({IT0}) - (ghost.waited - old(ghost.waited)))", "C11"),
+            ("the-packet-the-client-returned-is-the-one-yielded: exactly one packet is taken per step", "ghost.RXP == old(ghost.RXP) + unit(result)", "C03"),
         ],
-        raises={"StopIteration": [("iteration-ends-on-any-OSError (timeout included)", "True", "C11 C03")],
-                "BaseException": [("other-failures-propagate", "True", "C03")]},
-        modifies=[IT, "ghost.now", "ghost.waited"],
-        tags="C11",
+        raises={"StopIteration": [("iteration-ends-on-any-OSError (timeout included) and takes no packet then", "ghost.RXP == old(ghost.RXP)", "C11 C03")],
+                "BaseException": [("other-failures-propagate and take no packet", "ghost.RXP == old(ghost.RXP)", "C03")]},
+        modifies=[IT, "ghost.now", "ghost.waited", "ghost.RXP"],
+        tags="C11 C03",
+    )
+    register_async_iterator(R)
+
+
+def register_async_iterator(R):
+    """AsyncClientRecvIterator.__anext__ (C03, C11): same hand-through; the budget of the whole iteration is enforced by a timeout
+    scope around each receive and shrinks by the time each packet took."""
+    R.module("easynetwork/clients/abc.py")
+    R.shape("AbstractAsyncNetworkClient", cls="AbstractAsyncNetworkClient", fields={})
+    R.contract("AbstractAsyncNetworkClient.recv_packet", result="obj", trusted=True,
+               ensures=["ghost.now >= old(ghost.now) and ghost.waited - old(ghost.waited) == ghost.now - old(ghost.now)", "ghost.RXP == old(ghost.RXP) + unit(result)"],
+               raises={"BaseException": ["ghost.now >= old(ghost.now) and ghost.waited - old(ghost.waited) == ghost.now - old(ghost.now)", "ghost.RXP == old(ghost.RXP)"]},
+               modifies=["ghost.now", "ghost.waited", "ghost.RXP"])
+    R.module("easynetwork/clients/_iter.py")
+    R.shape("AsyncClientRecvIterator", cls="AsyncClientRecvIterator", fields={"__client": "AbstractAsyncNetworkClient", "__timeout": "xreal", "__backend": "AsyncBackend"})
+    IT, IT0 = "self.__timeout", "old(self.__timeout)"
+    R.contract(
+        "AsyncClientRecvIterator.__anext__", result="obj",
+        requires=[("budget-not-negative", f"isinf({IT}) or fin({IT}) >= 0")],
+        ensures=[
+            ("the-packet-the-client-returned-is-the-one-yielded: exactly one packet is taken per step", "ghost.RXP == old(ghost.RXP) + unit(result)", "C03"),
+            ("an-unbounded-budget-stays-unbounded", f"implies(isinf({IT0}), isinf({IT}))", "C11"),
+            ("the-time-this-packet-took-is-charged-to-the-remaining-budget (never negative, never more than elapsed)",
+             f"implies(not isinf({IT0}), not isinf({IT}) and fin({IT}) >= 0 and fin({IT}) <= fin({IT0}) and fin({IT}) >= fin({IT0}) - (ghost.now - old(ghost.now)))", "C11"),
+            ("at-least-the-time-spent-inside-the-receive-is-charged", f"implies(not isinf({IT0}), fin({IT}) == 0 or fin({IT}) <= fin({IT0}) - (ghost.waited - old(ghost.waited)))", "C11"),
+        ],
+        raises={"StopAsyncIteration": [("iteration-ends-on-any-OSError (timeout included) and takes no packet then", "ghost.RXP == old(ghost.RXP)", "C11 C03")],
+                "BaseException": [("other-failures-propagate and take no packet", "ghost.RXP == old(ghost.RXP)", "C03")]},
+        modifies=[IT, "ghost.now", "ghost.waited", "ghost.RXP", "ghost.suspensions"],
+        env={"call_hints": {"AsyncBackend.timeout": [("each-receive-runs-under-the-remaining-budget-of-the-iteration", "arg('delay') == self.__timeout", "C11")]}},
+        tags="C11 C03",
     )
 
 
